@@ -1,5 +1,6 @@
 import TaskModel.Output.Lemmas
 import TaskModel.Output.AcceptLemmas
+import TaskModel.Output.AcceptComplete
 import TaskModel.Gen.Output
 /-!
 # C17 — Grouped and prefixed output is never torn, lost or duplicated
@@ -357,6 +358,20 @@ theorem C17_acceptsGW_sound (b e : Bytes) (eo failed : Bool) (prods : List (List
     ∃ s, Shuffle prods s ∧ sink = if (eo && !failed) || s.flatten = [] then [] else [b ++ s.flatten ++ e] := by
   obtain ⟨s, hs, he⟩ := acceptsGW_sound _ prods failed sink h
   exact ⟨s, hs, by rw [he, C17_group_content]⟩
+
+/-- … and they reject nothing the writer can emit: for EVERY interleaving `s` of the producers' chunk sequences the
+writer's output is accepted — with the soundness theorems above the acceptors are exact, so a `reject` of the driver
+is a disagreement with every schedule, not an artefact of the search -/
+theorem C17_acceptsPW_complete (pre : Bytes) (prods : List (List Bytes)) (s : List Bytes) (h : Shuffle prods s) :
+    acceptsPW pre (chunkCount prods + 1) { prefix_ := pre } prods ((linesOf s.flatten).map (lineBlock pre)) = true := by
+  have := acceptsPW_complete pre prods s h (chunkCount prods + 1) { prefix_ := pre } (by rw [shuffle_chunkCount prods s h]; omega)
+  rwa [C17_prefixed] at this
+
+theorem C17_acceptsGW_complete (b e : Bytes) (eo failed : Bool) (prods : List (List Bytes)) (s : List Bytes) (h : Shuffle prods s) :
+    acceptsGW { begin_ := b, end_ := e, errorOnly := eo } prods failed
+      (if (eo && !failed) || s.flatten = [] then [] else [b ++ s.flatten ++ e]) = true := by
+  have := acceptsGW_complete { begin_ := b, end_ := e, errorOnly := eo } prods failed s h
+  rwa [C17_group_content] at this
 
 example : acceptsPW [112] 4 { prefix_ := [112] } [[[97], [10]], [[98, 10]]] [[91, 112, 93, 32, 97, 98, 10], [91, 112, 93, 32, 10]] = true := by decide
 example : acceptsPW [112] 4 { prefix_ := [112] } [[[97], [10]], [[98, 10]]] [[91, 112, 93, 32, 97, 10]] = false := by decide
